@@ -1,5 +1,283 @@
-"""Sanitizer / interpreter passes of the thorough tier (filled in per property)."""
+"""Sanitizer / interpreter passes of the thorough tier.
+
+Each pass rebuilds the harness (and with it /repo's current working tree: nuts-rs is a path dependency)
+under one instrumentation family into its own target directory, repeats the property's workload there and
+turns what the tool reported into violations.  One family per build:
+
+  asan  : -Zsanitizer=address (with leak detection where the workload does not leak threads on purpose)
+  tsan  : -Zsanitizer=thread with an instrumented std (-Zbuild-std), reports collected with halt_on_error=0
+  miri  : cargo miri run on the module's small `--mode miri` workload, several -Zmiri-seed schedules
+
+A pass result is three-valued: "clean" (tool ran the workload to the end and reported nothing), "reports"
+(violations attached) or "inconclusive" (build failed, tool crashed, watchdog expired, unsupported operation).
+Only "reports" produces VIOLATION lines; "inconclusive" is printed and recorded in the evidence file.
+
+The oracles of the module run inside the instrumented binary too; a violation they find there is reported
+like any other (same signatures, same known-findings file).
+"""
+import glob
+import json
+import os
+import re
+import subprocess
+import time
+
+ROOT = os.path.dirname(os.path.dirname(os.path.abspath(__file__)))
+HARNESS = os.path.join(ROOT, "harness")
+TMP = os.path.join(ROOT, "tmp")
+TARGET = "x86_64-unknown-linux-gnu"
+CFG = "--cfg nuts_rs_verif"
+
+BUILD = {
+    "asan": {
+        "rustflags": f"{CFG} -Zsanitizer=address -Cforce-frame-pointers=yes",
+        "extra": [],
+        "dir": os.path.join(ROOT, "target-asan"),
+    },
+    "tsan": {
+        "rustflags": f"{CFG} -Zsanitizer=thread -Cforce-frame-pointers=yes",
+        "extra": ["-Zbuild-std"],
+        "dir": os.path.join(ROOT, "target-tsan"),
+    },
+}
+
+# property -> passes (tool, workload tier of the instrumented run, options)
+PLAN = {
+    "C03": [("asan", {"leaks": True}), ("miri", {"seeds": 4, "tree_borrows": False})],
+    "C10": [("tsan", {})],
+    "C11": [("tsan", {}), ("miri", {"seeds": 12, "ignore_leaks": True, "tree_borrows": True})],
+    "C12": [("tsan", {})],
+    "C13": [("tsan", {})],
+    "C14": [("asan", {"leaks": False})],
+    "C15": [("asan", {"leaks": False}), ("tsan", {})],
+    "C17": [("asan", {"leaks": True})],
+}
+
+_built = {}
+
+
+def _env(extra):
+    env = dict(os.environ)
+    env["CARGO_NET_OFFLINE"] = "true"
+    env.update(extra)
+    return env
+
+
+def build(kind):
+    """Build the instrumented harness; returns (binary or None, seconds, tail of the build log)."""
+    if kind in _built:
+        return _built[kind]
+    b = BUILD[kind]
+    t0 = time.time()
+    cmd = ["cargo", "+nightly", "build", "--offline", "--release", "--target", TARGET] + b["extra"]
+    p = subprocess.run(cmd, cwd=HARNESS, env=_env({"RUSTFLAGS": b["rustflags"], "CARGO_TARGET_DIR": b["dir"]}),
+                       stdout=subprocess.PIPE, stderr=subprocess.STDOUT, text=True)
+    binary = os.path.join(b["dir"], TARGET, "release", "nutsverif")
+    ok = p.returncode == 0 and os.path.exists(binary)
+    _built[kind] = (binary if ok else None, round(time.time() - t0, 1), p.stdout[-1500:])
+    return _built[kind]
+
+
+def _repo_frame(block):
+    """First stack frame of a report that lies in nuts-rs (function name, line numbers stripped)."""
+    for line in block.splitlines():
+        m = re.match(r"\s*#\d+\s+(?:0x[0-9a-f]+\s+in\s+)?(\S.*?)\s+(\S+?)(?::\d+)*\s*(?:\(.*\))?$", line)
+        if not m:
+            continue
+        func, path = m.group(1), m.group(2)
+        if "/repo/" in path or "nuts_rs" in func or "nuts_derive" in func or "nuts_storable" in func:
+            func = re.sub(r"::h[0-9a-f]{16}$", "", func)
+            func = re.sub(r"<[^<>]*>", "<_>", func)
+            return func[:120]
+    return "outside_nuts_rs"
+
+
+def _harness_report(path):
+    if not os.path.exists(path):
+        return None
+    try:
+        rep = json.load(open(path))
+    except Exception:  # noqa: BLE001
+        return None
+    os.remove(path)
+    return rep
+
+
+def _oracle_violations(rep, kind):
+    """Violations the module's own oracles found while running instrumented: they count like any other
+    (same signatures, same known-findings file) but are not tool reports."""
+    out = []
+    if rep is None:
+        return out
+    seen = set()
+    for v in rep.get("violations", []):
+        if v["signature"] in seen:
+            continue
+        seen.add(v["signature"])
+        v = dict(v)
+        v["count"] = rep.get("violation_counts", {}).get(v["signature"], 1)
+        v["detail"] = f"[under {kind}] " + v.get("detail", "")
+        out.append(v)
+    return out
+
+
+def _run_instrumented(kind, prop, seed, opts, watchdog):
+    binary, build_s, tail = build(kind)
+    res = {"tool": kind, "build_s": build_s, "workload": f"{prop.lower()} --tier quick --seed {seed} (same generator as the quick tier)"}
+    if binary is None:
+        res.update(status="inconclusive", reason="instrumented build failed", detail=tail[-600:])
+        return res
+    os.makedirs(TMP, exist_ok=True)
+    out = os.path.join(TMP, f"{kind}-{prop}-{seed}.json")
+    prefix = os.path.join(TMP, f"{kind}-{prop}-{seed}-log")
+    for f in glob.glob(prefix + "*"):
+        os.remove(f)
+    if kind == "asan":
+        env = {"ASAN_OPTIONS": f"detect_leaks={1 if opts.get('leaks') else 0}:abort_on_error=0:exitcode=97:log_path={prefix}",
+               "LSAN_OPTIONS": "exitcode=98"}
+    else:
+        env = {"TSAN_OPTIONS": f"halt_on_error=0:exitcode=66:second_deadlock_stack=1:history_size=4:log_path={prefix}"}
+    t0 = time.time()
+    try:
+        p = subprocess.run([binary, prop.lower(), "--tier", "quick", "--seed", str(seed), "--out", out], cwd=ROOT, env=_env(env),
+                           stdout=subprocess.PIPE, stderr=subprocess.STDOUT, text=True, timeout=watchdog)
+        rc, output = p.returncode, p.stdout
+    except subprocess.TimeoutExpired:
+        res.update(status="inconclusive", reason=f"watchdog expired after {watchdog}s", run_s=round(time.time() - t0, 1))
+        return res
+    res["run_s"] = round(time.time() - t0, 1)
+    res["exit_status"] = rc
+    logs = "".join(open(f, errors="replace").read() for f in sorted(glob.glob(prefix + "*")))
+    for f in glob.glob(prefix + "*"):
+        os.remove(f)
+    rep = _harness_report(out)
+    if rep is not None:
+        res["evaluations"] = rep.get("evaluations", 0)
+        res["distinct_nontrivial"] = rep.get("distinct_nontrivial", 0)
+        res["observed"] = rep.get("extra", {})
+        res["oracle_violation_signatures"] = rep.get("violation_counts", {})
+    violations = []
+    if kind == "asan":
+        blocks = re.split(r"(?m)^=+\d+=+ERROR: ", logs + "\n" + output)[1:]
+        for b in blocks:
+            first = b.splitlines()[0] if b else ""
+            what = re.sub(r"[^A-Za-z-]+", "_", first.split(" on ")[0].split(":")[-1].strip())[:60] or "report"
+            if "LeakSanitizer" in first:
+                what = "leak"
+            sig = f"{prop}:sanitizer:asan:{what}:{_repo_frame(b)}"
+            violations.append({"signature": sig, "detail": b[:1500], "replay": {"sanitizer": "asan", "seed": seed}})
+    else:
+        blocks = re.split(r"(?m)^WARNING: ThreadSanitizer: ", logs + "\n" + output)[1:]
+        for b in blocks:
+            first = b.splitlines()[0] if b else ""
+            what = re.sub(r"[^A-Za-z-]+", "_", first.split("(pid")[0].strip())[:60] or "report"
+            sig = f"{prop}:sanitizer:tsan:{what}:{_repo_frame(b)}"
+            violations.append({"signature": sig, "detail": b[:1500], "replay": {"sanitizer": "tsan", "seed": seed}})
+    # dedupe by signature, keep counts
+    by_sig = {}
+    for v in violations:
+        if v["signature"] in by_sig:
+            by_sig[v["signature"]]["count"] += 1
+        else:
+            v["count"] = 1
+            by_sig[v["signature"]] = v
+    res["report_blocks"] = len(violations)
+    res["oracle_violations"] = _oracle_violations(rep, kind)
+    if by_sig:
+        res.update(status="reports", violations=list(by_sig.values()))
+    elif rep is None:
+        res.update(status="inconclusive", reason=f"instrumented run ended with status {rc} without a report", detail=output[-800:])
+    elif rep.get("evaluations", 0) < 1:
+        res.update(status="inconclusive", reason="instrumented run observed nothing")
+    else:
+        res["status"] = "clean"
+    return res
+
+
+def _run_miri(prop, seed, opts, watchdog):
+    flags = "-Zmiri-disable-isolation -Zmiri-deterministic-floats"
+    if opts.get("tree_borrows"):
+        flags += " -Zmiri-tree-borrows"
+    if opts.get("ignore_leaks"):
+        # the sampler's worker pool and the process-wide rayon pool are still alive when main returns
+        flags += " -Zmiri-ignore-leaks"
+    target_dir = os.path.join(ROOT, "target-miri")
+    n = opts.get("seeds", 4)
+    res = {"tool": "miri", "flags": flags, "schedules": n,
+           "workload": f"{prop.lower()} --mode miri (small single-process workload of the module), -Zmiri-seed = 0..{n - 1}"}
+    os.makedirs(TMP, exist_ok=True)
+    t0 = time.time()
+
+    def start(k):
+        out = os.path.join(TMP, f"miri-{prop}-{seed}-{k}.json")
+        env = _env({"MIRIFLAGS": f"{flags} -Zmiri-seed={k}", "CARGO_TARGET_DIR": target_dir})
+        return out, subprocess.Popen(["cargo", "+nightly", "miri", "run", "--offline", "--", prop.lower(), "--mode", "miri", "--seed", str(seed + k), "--out", out],
+                                     cwd=HARNESS, env=env, stdout=subprocess.PIPE, stderr=subprocess.STDOUT, text=True)
+
+    def finish(out, proc, left):
+        try:
+            text, _ = proc.communicate(timeout=max(1, left))
+            return proc.returncode, text, _harness_report(out)
+        except subprocess.TimeoutExpired:
+            proc.kill()
+            proc.communicate()
+            return None, "", None
+
+    # the first process builds (cargo holds the build lock); the others then run in parallel
+    runs = []
+    out0, p0 = start(0)
+    runs.append(finish(out0, p0, watchdog))
+    procs = [start(k) for k in range(1, n)] if runs[0][0] is not None else []
+    for out, proc in procs:
+        runs.append(finish(out, proc, watchdog - (time.time() - t0)))
+    res["run_s"] = round(time.time() - t0, 1)
+    by_sig, oracle, evals, distinct, clean, inconclusive = {}, {}, 0, 0, 0, []
+    for k, (rc, text, rep) in enumerate(runs):
+        if rc is None:
+            inconclusive.append(f"schedule {k}: watchdog expired")
+            continue
+        if rep is not None:
+            evals += rep.get("evaluations", 0)
+            distinct += rep.get("distinct_nontrivial", 0)
+            for v in _oracle_violations(rep, "miri"):
+                oracle.setdefault(v["signature"], v)
+        m = re.search(r"(?m)^error: (.*)$", text)
+        if m:
+            msg = m.group(1)
+            if msg.startswith("unsupported operation") or "could not compile" in msg or "aborting due to" in msg and "Undefined" not in text:
+                inconclusive.append(f"schedule {k}: {msg[:160]}")
+                continue
+            kind = "undefined_behavior" if "Undefined Behavior" in msg else ("data_race" if "ata race" in msg else ("deadlock" if "deadlock" in msg else "error"))
+            if "Data race" in text or "data race" in text:
+                kind = "data_race"
+            # first frame inside nuts-rs
+            frame = "outside_nuts_rs"
+            for line in text[m.start():].splitlines():
+                mm = re.search(r"(?:inside|note: inside) `([^`]+)` at (/repo/\S+?):\d+", line)
+                if mm:
+                    frame = re.sub(r"<[^<>]*>", "<_>", mm.group(1))[:120]
+                    break
+            sig = f"{prop}:sanitizer:miri:{kind}:{frame}"
+            by_sig.setdefault(sig, {"signature": sig, "detail": text[m.start():m.start() + 1500], "replay": {"sanitizer": "miri", "seed": seed + k, "miri_seed": k}})
+        elif rc != 0 and rep is None:
+            inconclusive.append(f"schedule {k}: exit status {rc} without a report: {text[-200:]}")
+        else:
+            clean += 1
+    res.update(evaluations=evals, distinct_nontrivial=distinct, schedules_clean=clean, oracle_violations=list(oracle.values()))
+    if by_sig:
+        res.update(status="reports", violations=list(by_sig.values()))
+    elif inconclusive:
+        res.update(status="inconclusive", reason="; ".join(inconclusive)[:800])
+    else:
+        res["status"] = "clean"
+    return res
 
 
 def passes_for(prop):
-    return []
+    out = []
+    for kind, opts in PLAN.get(prop, []):
+        if kind == "miri":
+            out.append((kind, lambda p, s, o=opts: _run_miri(p, s, o, 3600)))
+        else:
+            out.append((kind, lambda p, s, k=kind, o=opts: _run_instrumented(k, p, s, o, 3600)))
+    return out
